@@ -17,7 +17,8 @@ reported as lost — never guessed):
                np.asarray, numpy vector-scalar arithmetic, comparisons and boolean-mask
                indexing, attribute access / method calls / constructors / global tables
                declared in the spec (bound to model functions or generated tables), calls of
-               other translated functions.
+               other translated functions (missing trailing arguments take the defaults of the `def`: constants are read from
+               the source, others must be declared in the entry, key `defaults`).
 Additions for the duration operations (group SrcDurOps; all opt-in through spec bindings or entry keys, so the images of the
 other groups do not change): `isinstance` on int / float / str, typed global functions (`spec.calls`, e.g. `frac`), typed
 operators bound in the spec or to translated `__add__` / `__radd__` instances (`spec.binops`, entry keys `binop` / `rbinop`),
@@ -31,13 +32,35 @@ List surgery (group SrcExt; the generated file must import MV.Model.PyList, name
 `__eq__` the spec binds (`spec.eq`), an empty dict literal with `d[k] = v`, `d[k]`, `d.keys()` (association list in insertion
 order, keys compared with the bound `__eq__`), `sorted(l, key=lambda x: e)` with int / Optional[int] keys, f-strings and `+`
 on strings.  A parameter the function mutates must be declared `owned` in the spec entry (see `translate_function`).
-Where the forks of the groups met (merge of SrcOrn, SrcDurOps, SrcExt):
-  * `/`: a `spec.binops` binding first (SrcDurOps: `Py.ratDiv`), else the built-in reading (SrcOrn: `Py.fracDiv`, `x / 2` pure);
+Re-notations (group SrcConv; bindings local to its entries, entry key `local_spec`): dict types the spec declares
+(`spec.dict_types`: `{}`, `d[k] = v`, `x.attr[k] = v`, `{k: f(v) for k, v in d.items()}`, `for k, v in d.items()`), `obj(**d)`
+(`spec.call_objects`), `None <op> int` (`spec.none_arith`: TypeError), `l.index(x)` by a translated `__eq__` (`spec.eq_index`),
+methods declared to return new objects (`spec.fresh_methods`), `for a, b in pairs`, `a, d[k] = e`, `x.a, y.b = e1, e2`,
+`try: … except [Exception]: …` whose body always returns, functions that call themselves (entry key `recursive`: structural
+recursion on a depth bound `fuel`), keyword arguments in any order with defaults left out.
+Slicing (groups SrcBetween / SrcBetweenProject): dicts as association lists of type `Dict K V`: literals with constant string
+keys, `{k: v for k in keys}` (a `None` value makes the entries Optional, their type is fixed by the first store), `d[k]`,
+`d[k] = v`, `d[k] op= v`, `d.keys()`, `d.update(e)`, `dict(d)`, `f(**d)` on a callable local (`spec.kwcalls`), all stores only on
+dicts no other name refers to; `x if o is not None else y` on an Optional local (a `match`; a raising branch is only evaluated
+when taken), built-ins bound per argument types (`spec.builtins`), `o.attr` on an Optional (`spec.option_unwrap`: AttributeError
+on None), `for` over a bound iterable (`spec.iters`) and over `enumerate(v)` when the index is never read.
+Where the forks of the groups met (merges of SrcOrn, SrcDurOps, SrcExt, then of SrcConv, SrcBetween / SrcBetweenProject):
+  * `/`: a `spec.binops` binding first (SrcDurOps: `Py.ratDiv`, SrcBetween: `PyB.ratDiv`), else the built-in reading (SrcOrn:
+    `Py.fracDiv`, `x / 2` pure); bindings are looked up with the operand types as inferred, then with their type variables resolved;
   * `x[::-1]`: a `(type, '[::-1]')` method binding first (SrcDurOps, a `Melody`: a fresh local `rv_n`), else `.reverse` on a `List …`;
   * item store: `xs[i] = v` / `d[k] = v` on a local name -> `PyL.setItem` / `PyL.dictSet` (SrcExt, file imports MV.Model.PyList);
     `m.notes[i] = v` through an attribute that is the list itself -> `Py.setItem` (SrcDurOps, defined in its PRELUDE);
-  * entry key `owned` (parameters the function stores into): see `FunTr.check_owned` (both call disciplines are admitted);
-  * tree nodes: `matchsum` = SrcOrn's `if isinstance(x, C)` on a `spec.sums` type, `matchunion` = SrcDurOps's `UNIONS` value;
+  * dicts, three readings that never mix (`FunTr.dict_reading`): a type declared in `spec.dict_types` with its own `set` template
+    (SrcConv), `Dict K V` with `spec.dict_ops` / `lookupKey` (SrcBetween), `Assoc (K × V)` with `PyL.dictSet` / `PyL.dictGet` and the
+    bound `__eq__` (SrcExt; this tag was `Dict …` before the second merge).  `{}` is SrcConv's when the spec declares dict types,
+    else SrcExt's; a literal with string keys and `{k: v for k in keys}` are SrcBetween's; `{k: f(v) for k, v in …}` is SrcConv's
+    over the `.items()` of a declared dict type, else SrcDurOps's list of pairs;
+  * `obj(**d)`: one handler (`FunTr.object_call`) reads `spec.callables` (SrcDurOps), `spec.kwcalls` (SrcBetween), `spec.call_objects` (SrcConv);
+  * entry key `owned` (parameters the function stores into): see `FunTr.check_owned` (three call disciplines are admitted);
+  * depth bounds: the entry key `fuel` of SrcDurOps (`rec_fuel`) and of SrcConv (`fuel`) is one key, see `translate_function`;
+  * a loop variable that is `None` before a loop and a value afterwards: SrcDurOps's implementation (SrcBetween's gave the same text);
+  * `assert`: SrcOrn's statement (a truthy binding for the test, the note on the message), plus SrcBetween's skip of a test decided by the types;
+  * tree nodes: `matchsum` = SrcOrn's `if isinstance(x, C)` on a `spec.sums` type, `matchunion` = SrcDurOps's `UNIONS` value, `try` = SrcConv's;
   * plug-in groups translate against their own copy of the spec (translate_src.make), so bindings do not leak between groups.
 Typing is by a simple flow-sensitive inference from the parameter types given in the spec; an
 `if` duplicates the rest of the block into both branches, so every path is typed on its own.
@@ -110,11 +133,24 @@ def ident(n):
 UNIONS = {}      # 'A|B' -> (Lean inductive, [(member type, constructor)]): values whose Python class is decided at run time
 
 
+ASSOC = 'Assoc '     # SrcExt's dicts: `Assoc (K × V)`, the entry type fixed by the first store (SrcBetween's are `Dict K V`, see `dict_kv`)
+
+
+def dict_kv(ty):
+    """`Dict K V` (SrcBetween: a Python dict read as an association list in insertion order) -> (K, V)"""
+    k, v = ty[5:].split(' ', 1)
+    v = v.strip()
+    return k, (v[1:-1] if v.startswith('(') and v.endswith(')') else v)
+
+
 def lean_ty(t):
     if t in UNIONS:
         return UNIONS[t][0]
-    if t.startswith('Dict '):          # a dict is its association list in insertion order
-        return 'List ' + t[5:]
+    if t.startswith(ASSOC):            # SrcExt: a dict is its association list in insertion order, `Assoc <entry type>`
+        return 'List ' + t[len(ASSOC):]
+    if t.startswith('Dict '):          # SrcBetween: `Dict K V`
+        k, v = dict_kv(t)
+        return f'List ({lean_ty(k)} × {lean_ty(v)})'
     return {'Np': 'List Int', 'NpBool': 'List Bool', 'None': 'Unit', 'Str': 'String', 'Set Int': 'List Int',
             'Parts': 'List (String × Melody)', 'List Str': 'List String', 'Metric': 'Rhythm.Metric',
             'Float': 'Rat'}.get(t, t)
@@ -133,7 +169,7 @@ def elem_ty(ty):
         return 'Int'
     if ty == 'Melody':
         return 'Note'
-    e = ty[5:].strip()
+    e = ty[len(ASSOC):].strip() if ty.startswith(ASSOC) else ty[5:].strip()
     return e[1:-1] if e.startswith('(') and e.endswith(')') else e
 
 
@@ -180,6 +216,19 @@ class Spec:
         self.callables = {}               # (type of the called object, (positional types…, '**T' for a `**dict` argument)) ->
                                           #   (template over {0}=object,{1}.., result type, keyword names that are dropped)
         self.eq = {}                      # type -> template over {0}=list item / stored key, {1}=value: Python's `{0} == {1}` (`__eq__`)
+        # --- binding kinds added for the group SrcConv (all empty by default: nothing changes for the other groups)
+        self.none_arith = None            # template over {0}: an `Option Int` used as an arithmetic operand (`None % 12` raises TypeError)
+        self.fresh_methods = set()        # (type, method): the result is a new object no other name refers to
+        self.eq_index = {}                # element type -> template over {0}=list,{1}=value: `list.index(value)` by the translated `__eq__`
+        self.call_objects = {}            # type -> (template over {0}=object,{1}=dict, dict type, result type): `obj(**dict)`
+        self.dict_types = {}              # dict type -> dict(key=, val=, items=type of .items(), set=template {0},{1},{2})
+        self.dict_empty = '[]'            # `{}` on the model's association lists
+        # --- binding kinds added for the groups SrcBetween / SrcBetweenProject (empty by default)
+        self.kwcalls = {}                 # (type of a callable local, type of the dict in `f(**d)`) -> (template over {0}=f,{1}=d, result type)
+        self.builtins = {}                # built-in function name -> {tuple of argument types: (template, result type)}
+        self.dict_ops = {}                # 'set' / 'get' / 'update' -> template: Python dict operations on association lists
+        self.option_unwrap = None         # template over {0}: `x.attr` on an Optional x (AttributeError on None), `Res T`
+        self.iters = {}                   # type -> (template over {0}, list type): what `for x in v` iterates over
 
 
 class FunTr:
@@ -201,6 +250,7 @@ class FunTr:
         self.nested = {}           # entry key `nested`: local function name -> dict(lean=, params=, ret=) (recursion by fuel)
         self.nested_defs = []      # rendered local functions
         self.has_fuel = False      # the Lean definition takes `rec_fuel : Nat` (bound on the depth of local recursions)
+        self.fuel_name = None      # … under this name: `rec_fuel` (SrcDurOps) or `fuel` (SrcConv), see `call_fun` / `translate_function`
         self.ret_expr = None       # the expression of the `return` statement being translated
 
     def fresh(self, base='t'):
@@ -241,8 +291,10 @@ class FunTr:
         raise Untranslatable(f'constant {v!r}')
 
     def e_Name(self, e, env, B):
-        if e.id in self.consts and e.id in env:
+        if e.id in self.consts and e.id in env and e.id not in env.get('__rebound__', ()):
             return self.consts[e.id], env[e.id]
+        if e.id in env.get('__subst__', {}) and e.id in env:
+            return env['__subst__'][e.id], env[e.id]           # components of the pair a dict comprehension runs over
         if e.id in env.get('__const__', {}) and e.id in env:
             return env['__const__'][e.id], env[e.id]      # a local bound to a boolean literal on this path
         if e.id in env:
@@ -274,12 +326,50 @@ class FunTr:
         return t, ty
 
     def e_Dict(self, e, env, B):
-        """only the empty literal: an association list whose entry type is fixed by the first store"""
+        """a dict is an association list in insertion order; three readings, chosen by the literal and by what the group's spec binds:
+          * a literal with distinct constant string keys (SrcBetween): the list in source order, type `Dict Str V`;
+          * `{}` when the spec declares dict types (SrcConv, `spec.dict_types`): which declared type it is is fixed by the first
+            store / by what it is passed as (`as_dict_type`);
+          * `{}` otherwise (SrcExt): the entry type is fixed by the first store, type `Assoc ⟦T⟧` (operations of MV.Model.PyList)"""
         if e.keys:
-            raise Untranslatable('non-empty dict literal')
+            if any(not (isinstance(k_, ast.Constant) and isinstance(k_.value, str)) for k_ in e.keys) \
+                    or len({k_.value for k_ in e.keys}) != len(e.keys):
+                raise Untranslatable('dict literal')
+            items = [(self.expr(k_, env, B)[0], self.expr(v_, env, B)) for k_, v_ in zip(e.keys, e.values)]
+            if any(v_[1] != items[0][1][1] for _, v_ in items):
+                raise Untranslatable('heterogeneous dict')
+            return '[' + ', '.join(f'({k_}, {v_[0]})' for k_, v_ in items) + ']', f'Dict Str {paren(items[0][1][1])}'
         m = f'⟦T{len(self.tyvars) + 1}⟧'
         self.tyvars[m] = None
-        return '[]', f'Dict {m}'
+        if self.spec.dict_types:
+            self.dictvars = getattr(self, 'dictvars', set()) | {m}
+            return self.spec.dict_empty, m
+        return '[]', f'{ASSOC}{m}'
+
+    def dict_reading(self, ty):
+        """which reading of Python dicts a type belongs to: 'declared' = a dict type of `spec.dict_types` or a `{}` that will
+        become one (SrcConv), 'kv' = `Dict K V` (SrcBetween), 'assoc' = `Assoc (K × V)` (SrcExt); None for other types"""
+        if self.spec.dict_types and (self.resolve(ty) in self.spec.dict_types or ty in getattr(self, 'dictvars', ())):
+            return 'declared'
+        if ty.startswith('Dict '):
+            return 'kv'
+        if ty.startswith(ASSOC):
+            return 'assoc'
+        return None
+
+    def as_dict_type(self, ty, key=None, val=None, want=None):
+        """the declared dict type `ty` stands for; an empty `{}` is resolved by what is stored into it / what it is passed as"""
+        ty = self.resolve(ty)
+        if ty in self.spec.dict_types:
+            return ty
+        if ty in getattr(self, 'dictvars', ()) and self.tyvars.get(ty) is None:
+            cands = [d for d, D in self.spec.dict_types.items()
+                     if (want is None or d == want) and (key is None or lean_ty(D['key']) == lean_ty(key))
+                     and (val is None or lean_ty(D['val']).replace('Melody', 'List Note') == lean_ty(val).replace('Melody', 'List Note'))]
+            if len(cands) == 1:
+                self.tyvars[ty] = cands[0]
+                return cands[0]
+        return None
 
     def e_JoinedStr(self, e, env, B):
         """f-string whose pieces are literal text and `{s}` for a string `s` (no conversion, no format spec)"""
@@ -340,7 +430,35 @@ class FunTr:
             return terms[0], 'Bool'
         return '(' + f' {op} '.join(terms) + ')', 'Bool'
 
+    def ifexp_opt(self, e, env, B, nt):
+        """`a if x is not None else b` on an Optional local: a `match`, each branch typed with the narrowed type;
+        a branch that can raise is evaluated only when it is taken"""
+        x, is_none = nt
+        inner = env[x][7:].strip()
+        inner = inner[1:-1] if inner.startswith('(') and inner.endswith(')') else inner
+        e_none, e_some = (e.body, e.orelse) if is_none else (e.orelse, e.body)
+        Bs, Bn = [], []
+        a, aty = self.expr(e_some, {**env, x: inner, '__narrowed__': tuple(env.get('__narrowed__', ())) + (x,)}, Bs)
+        b, bty = self.expr(e_none, {**env, x: 'None'}, Bn)
+        if aty != bty:
+            if {aty, bty} != {'Int', 'Rat'}:
+                raise Untranslatable('conditional expression')
+            a, b = self.coerce(a, aty, 'Rat'), self.coerce(b, bty, 'Rat')
+            aty = 'Rat'
+        if not Bs and not Bn:
+            return f'(match {ident(x)} with | some {ident(x)} => {a} | none => {b})', aty
+        if B is None:
+            raise Untranslatable('an expression that can raise inside a pure context')
+
+        def seq(Bx, t):
+            return ' '.join([(f'let {n} := {m[1]};' if isinstance(m, tuple) else f'let {n} ← {m};') for n, m in Bx] + [f'pure {t}'])
+        return self.bind(B, f'match {ident(x)} with | some {ident(x)} => (do {seq(Bs, a)}) | none => (do {seq(Bn, b)})',
+                         'Res ' + paren(aty))
+
     def e_IfExp(self, e, env, B):
+        nt = self.none_test(e.test, env)
+        if nt is not None:
+            return self.ifexp_opt(e, env, B, nt)
         c, cty = self.expr(e.test, env, B)
         Ba, Bb = [], []
         a, aty = self.expr(e.body, env, Ba)
@@ -349,6 +467,15 @@ class FunTr:
             # decided by the declared types: only the branch that runs is evaluated
             B.extend(Ba if c == 'true' else Bb)
             return (a, aty) if c == 'true' else (b, bty)
+        if cty == 'Bool' and ((c == 'true' and not Ba) or (c == 'false' and not Bb)):
+            return (a, aty) if c == 'true' else (b, bty)      # the other branch is never evaluated (it may raise)
+        def inline(Bx, t):
+            # branches that only name copies of values (`x.copy() if … else …`): the names are local to the branch
+            for n_, m_ in reversed(Bx):
+                t = f'(let {n_} := {m_[1]}; {t})'
+            return t
+        if (Ba or Bb) and cty == 'Bool' and all(isinstance(m_, tuple) and m_[0] == 'pure' for _, m_ in Ba + Bb):
+            a, b, Ba, Bb = inline(Ba, a), inline(Bb, b), [], []
         if Ba or Bb or cty != 'Bool':
             raise Untranslatable('conditional expression')
         if c == 'true':          # decided by the declared types (e.g. `x if x is not None else d` on a non-optional x)
@@ -377,6 +504,8 @@ class FunTr:
         a, aty = self.expr(e.left, env, B)
         b, bty = self.expr(e.right, env, B)
         op = type(e.op).__name__
+        if self.spec.none_arith and aty == 'Option Int' and bty == 'Int' and op in ('Add', 'Sub', 'Mult', 'FloorDiv', 'Mod'):
+            a, aty = self.bind(B, self.spec.none_arith.format(a), 'Res Int')      # `None <op> int` raises TypeError (SrcConv)
         return self.binop_u(a, aty, b, bty, op, e, B)
 
     def binop_u(self, a, aty, b, bty, op, e, B):
@@ -426,11 +555,12 @@ class FunTr:
             return f'({a} ++ {b})', 'Str'
         if (aty, op) in self.spec.operators and bty == aty:
             return self.call_fun(self.spec.operators[(aty, op)], [(a, aty), (b, bty)], B)
-        if (aty, op, bty) in self.spec.binops:
+        bkey = (aty, op, bty) if (aty, op, bty) in self.spec.binops else (self.resolve(aty), op, self.resolve(bty))
+        if bkey in self.spec.binops:
             # an operator the spec binds (SrcOrn: `+` on note-or-melody values; SrcDurOps: `/` on Fractions, list * int, typed
             # `__add__` instances).  It comes before the built-in reading of `/` below, so that a group that binds `/` itself
             # (SrcDurOps: `Py.ratDiv`) keeps its binding and a group that does not (SrcOrn) gets the built-in one.
-            tmpl, rty = self.spec.binops[(aty, op, bty)]
+            tmpl, rty = self.spec.binops[bkey]
             return self.bind(B, tmpl.format(a, b), rty)
         if op == 'Div' and 'Rat' in (aty, bty) and {aty, bty} <= {'Rat', 'Int'}:
             # Fraction / Fraction-or-int: exact, ZeroDivisionError on 0
@@ -533,6 +663,12 @@ class FunTr:
             B.append((t, ('pure', tmpl.format(v))))
             self.fresh_terms.add(t)          # a slice is a new list
             return t, rty
+        if vty.startswith('Dict ') and not isinstance(e.slice, ast.Slice):
+            kty, valty = dict_kv(self.resolve(vty))
+            k_, kty_ = self.expr(e.slice, env, B)
+            if kty_ != kty:
+                raise Untranslatable(f'key of {vty}: {kty_}')
+            return self.bind(B, f'lookupKey {k_} {v}', 'Res ' + paren(valty))      # KeyError when absent
         if isinstance(e.slice, ast.Slice):
             s = e.slice
             if s.lower is None and s.upper is None and vty.startswith('List '):
@@ -552,7 +688,7 @@ class FunTr:
             if ity != 'Int':
                 raise Untranslatable('slice bound')
             return f'(Py.{fn} {v} {i})', 'List Int'
-        if vty.startswith('Dict '):                    # `d[k]`: KeyError when absent
+        if vty.startswith(ASSOC):                      # `d[k]`: KeyError when absent (SrcExt)
             kv = split_prod(elem_ty(self.resolve(vty)))
             k_, kty_ = self.expr(e.slice, env, B)
             if len(kv) != 2 or lean_ty(kty_) != lean_ty(kv[0]):
@@ -597,9 +733,13 @@ class FunTr:
         mutation:
           (a) `x = f(x, …)`, the call being the whole right-hand side: a functional update, the name is rebound to the result
               (SrcOrn: `new_note = accent(new_note, …)` after `new_note = note.copy()`);
-          (b) `return f(…, x, …)`, the call being the function's final expression (SrcExt: `return self._chord_notes_calc(…)`)."""
+          (b) `return f(…, x, …)`, the call being the function's final expression (SrcExt: `return self._chord_notes_calc(…)`);
+          (c) `a, x = f(…, x, …)` (a tuple assignment), `x` a local name with no second reference that is re-bound before it is
+              next read (SrcConv: `new_chord, last_pitch = chord.to_absolute_note(last_pitch=last_pitch, …)`): `check_owned_call`."""
         f = self.spec.funs[pyname]
         names = [p[0] for p in f['params']]
+        if id(call) in getattr(self, '_owned_ok', ()):
+            return            # form (c), approved by `check_owned_call` at the statement
         for p in f.get('owned', ()):
             a = arg_asts[names.index(p)] if names.index(p) < len(arg_asts) else None
             ok = isinstance(a, ast.Name) and ident(a.id) in self.fresh_vars(env) and \
@@ -612,10 +752,19 @@ class FunTr:
         f = self.spec.funs[pyname]
         if f.get('fuel') and not self.has_fuel:
             raise Untranslatable(f'{pyname} recurses; the caller needs the entry key `fuel`')
+        if len(args) < len(f['params']) and all(pn in f.get('defaults', {}) for pn, _ in f['params'][len(args):]):
+            args = list(args) + [f['defaults'][pn] for pn, _ in f['params'][len(args):]]     # the defaults of the `def`
         if len(args) != len(f['params']):
             raise Untranslatable(f'arity of {pyname}')
         args = [(self.coerce(t, ty, pty, f'argument {pn} of {pyname}'), pty) for (t, ty), (pn, pty) in zip(args, f['params'])]
-        term = f'{f["lean"]} ' + ('rec_fuel ' if f.get('fuel') else '') + ' '.join(a[0] if a[0].startswith('(') or a[0].isidentifier() else f'({a[0]})' for a in args)
+        fuel = ''
+        if f.get('fuel'):
+            # the caller passes its own bound on; its name follows the first function it reaches (`rec_fuel` for the local
+            # recursions of SrcDurOps, `fuel` for the `recursive` entries of SrcConv) unless its own entry already fixed it
+            if self.fuel_name is None:
+                self.fuel_name = f['fuel'] if isinstance(f['fuel'], str) else 'rec_fuel'
+            fuel = self.fuel_name + ' '
+        term = f'{f["lean"]} ' + fuel + ' '.join(a[0] if a[0].startswith('(') or a[0].isidentifier() else f'({a[0]})' for a in args)
         if f['pure']:
             return f'({term})', f['ret']
         return self.bind(B, term, 'Res ' + f['ret'])
@@ -643,9 +792,97 @@ class FunTr:
         body = ' '.join(f'let {n} ← {m};' for n, m in Bk) + f' pure {k}'
         return self.bind(B, f'PyL.sortedByOptKey (fun ({ident(x)} : {lean_ty(et)}) => do {body}) {l}', 'Res ' + paren(lty))
 
+    def owned_callee(self, call, env):
+        """the translated function a call node refers to, if it owns (mutates and returns) one of its parameters"""
+        fn = call.func
+        f = None
+        if isinstance(fn, ast.Name) and fn.id in self.spec.funs:
+            f = self.spec.funs[fn.id]
+        elif isinstance(fn, ast.Attribute) and any(attr_ == fn.attr and self.spec.funs[name_].get('owned')
+                                                   for (ty_, attr_), name_ in self.spec.funs_by_attr.items()):
+            saved_n, saved_fresh = self.n, set(self.fresh_terms)
+            try:
+                _, vty = self.expr(fn.value, env, [])          # only the receiver's type is needed
+            except Untranslatable:
+                vty = None
+            self.n, self.fresh_terms = saved_n, saved_fresh
+            if (vty, fn.attr) in self.spec.funs_by_attr:
+                f = self.spec.funs[self.spec.funs_by_attr[(vty, fn.attr)]]
+        return f if f is not None and f.get('owned') else None
+
+    def check_owned_call(self, stmt, rest, env):
+        """A callee that stores into a dict it was given (and returns it) is translated with value semantics; that is
+        only faithful when the caller never looks at its own reference again: the argument must be a local name that
+        is re-bound before it is next read (inside a loop: re-bound in the same iteration)."""
+        for call in [x for x in ast.walk(stmt) if isinstance(x, ast.Call)]:
+            f = self.owned_callee(call, env)
+            if f is None:
+                continue
+            names = [p[0] for p in f['params']]
+            off = 1 if isinstance(call.func, ast.Attribute) else 0
+            given = {names[off + i]: a for i, a in enumerate(call.args) if off + i < len(names)}
+            given.update({k.arg: k.value for k in call.keywords if k.arg})
+            for pn in f['owned']:
+                a = given.get(pn)
+                if a is None:
+                    continue                       # default value: a new object
+                if not isinstance(a, ast.Name):
+                    raise Untranslatable(f'argument {pn} (mutated by the callee) is not a local name at line {stmt.lineno}')
+                # no second reference to the object: the name is never used as a bare value (assigned to another name,
+                # stored, returned, passed on) anywhere in the function, only read through (`x.get(k)`, `x[k]`) or given to the callee
+                for node in [n_ for st_ in getattr(self, 'fun_body', []) for n_ in ast.walk(st_)]:
+                    for ch in ast.iter_child_nodes(node):
+                        if isinstance(ch, ast.Name) and ch.id == a.id and isinstance(ch.ctx, ast.Load) and ch is not a:
+                            through = (isinstance(node, ast.Attribute) or (isinstance(node, ast.Subscript) and node.value is ch))
+                            if not through:
+                                raise Untranslatable(f'`{a.id}` (mutated by a callee) may have a second reference, line {ch.lineno}')
+                rebound = False
+                for st_ in rest:
+                    reads = any(isinstance(x, ast.Name) and x.id == a.id and isinstance(x.ctx, ast.Load) for x in ast.walk(st_))
+                    if isinstance(st_, ast.Assign) and len(st_.targets) == 1 and isinstance(st_.targets[0], ast.Name) \
+                            and st_.targets[0].id == a.id and not reads:
+                        rebound = True
+                        break
+                    if reads or any(isinstance(x, ast.Name) and x.id == a.id for x in ast.walk(st_)):
+                        raise Untranslatable(f'`{a.id}` is used after the callee mutated it, at line {st_.lineno}')
+                if not rebound:
+                    raise Untranslatable(f'`{a.id}` (mutated by the callee) is not re-bound after the call at line {stmt.lineno}')
+            self._owned_ok = getattr(self, '_owned_ok', set()) | {id(call)}
+
+    def kw_args(self, f, pn, kw, env, B, what):
+        """keyword arguments for the remaining parameters `pn` of a translated function, in the order written
+        (Python evaluates them in call order); parameters left out take their declared default"""
+        dflt = f.get('defaults', {})
+        for k_ in [k_ for k_ in kw if k_ in f.get('fixed', {})]:
+            # the callee was translated for this value of the parameter only
+            t_, _ = self.expr(kw[k_], env, None)
+            if t_ != f['fixed'][k_]:
+                raise Untranslatable(f'{what} is translated for {k_}={f["fixed"][k_]} only')
+            kw = {a_: b_ for a_, b_ in kw.items() if a_ != k_}
+        if not (set(kw) <= set(pn) and all(p in kw or p in dflt for p in pn)):
+            raise Untranslatable(f'keyword arguments of {what}')
+        vals = {k: self.expr(v, env, B) for k, v in kw.items()}
+        return [vals[p] if p in vals else dflt[p] for p in pn]
+
+    def object_call(self, vty, sig):
+        """what the spec binds for `obj(args, **d)` on an object of type `vty` -> (template over {0}=object,{1}.., result type,
+        keyword names that are dropped).  The three forks spelt the binding in three ways, all read here:
+        `spec.callables[(type, (positional types…, '**T'))]` (SrcDurOps), `spec.kwcalls[(type, T)]` for `f(**d)` (SrcBetween),
+        `spec.call_objects[type] = (template, T, result type, dropped)` for `obj(**d, dropped=…)` (SrcConv)"""
+        if (vty, sig) in self.spec.callables:
+            return self.spec.callables[(vty, sig)]
+        if len(sig) == 1 and sig[0].startswith('**'):
+            if (vty, sig[0][2:]) in self.spec.kwcalls:
+                return self.spec.kwcalls[(vty, sig[0][2:])] + ((),)
+            if vty in self.spec.call_objects and self.spec.call_objects[vty][1] == sig[0][2:]:
+                tmpl, _, rty, dropped = self.spec.call_objects[vty]
+                return tmpl, rty, dropped
+        return None
+
     def e_Call(self, e, env, B):
         fn = e.func
-        if isinstance(fn, ast.Name) and fn.id in env and any(k_[0] == env[fn.id] for k_ in self.spec.callables):
+        if isinstance(fn, ast.Name) and fn.id in env and (env[fn.id] in self.spec.call_objects or any(
+                k_[0] == env[fn.id] for k_ in list(self.spec.callables) + list(self.spec.kwcalls))):
             # `obj(args, **d, kw=…)` on an object whose `__call__` the spec binds
             v, vty = self.expr(fn, env, B)
             args = [self.expr(a, env, B) for a in e.args]
@@ -654,12 +891,17 @@ class FunTr:
                 raise Untranslatable('several ** arguments')
             sig = tuple(a[1] for a in args)
             if stars:
-                d = self.expr(stars[0].value, env, B)
-                args.append(d)
-                sig += ('**' + d[1],)
-            if (vty, sig) not in self.spec.callables:
+                d, dty = self.expr(stars[0].value, env, B)
+                if vty in self.spec.call_objects and not args:
+                    dty = self.as_dict_type(dty, want=self.spec.call_objects[vty][1]) or dty     # a `{}` nothing was stored into yet
+                if (vty, sig + ('**' + dty,)) not in self.spec.callables:
+                    dty = self.resolve(dty)
+                args.append((d, dty))
+                sig += ('**' + dty,)
+            bound = self.object_call(vty, sig)
+            if bound is None:
                 raise Untranslatable(f'call of a {vty} on {sig} at line {e.lineno}')
-            tmpl, rty, dropped = self.spec.callables[(vty, sig)]
+            tmpl, rty, dropped = bound
             for kw in e.keywords:
                 if kw.arg is not None and kw.arg not in dropped:
                     raise Untranslatable(f'call of a {vty}: keyword {kw.arg}')
@@ -672,6 +914,14 @@ class FunTr:
             raise Untranslatable('keyword arguments')
         if isinstance(fn, ast.Name):
             n = fn.id
+            if n in self.spec.builtins and n not in env and not e.keywords:
+                # a built-in the group's spec binds per argument types (SrcBetween: `int`, `dict`); it wins over the readings below
+                args = [self.expr(a, env, B) for a in e.args]
+                sig = tuple(a[1] for a in args)
+                if sig not in self.spec.builtins[n]:
+                    raise Untranslatable(f'{n}{sig} at line {e.lineno}')
+                tmpl, rty = self.spec.builtins[n][sig]
+                return self.bind(B, tmpl.format(*[a[0] for a in args]), rty)
             if n in ('list',) and len(e.args) == 1:
                 t, ty = self.expr(e.args[0], env, B)
                 if not is_list(ty):
@@ -795,9 +1045,7 @@ class FunTr:
                 if e.keywords:
                     pn = [p[0] for p in self.spec.funs[n]['params']][len(args):]
                     kw = {k.arg: k.value for k in e.keywords}
-                    if set(kw) != set(pn):
-                        raise Untranslatable(f'keyword arguments of {n}')
-                    args += [self.expr(kw[p], env, B) for p in pn]
+                    args += self.kw_args(self.spec.funs[n], pn, kw, env, B, n)
                 return self.call_fun(n, args, B)
             if n not in env and not e.keywords and any(k[0] == n for k in self.spec.calls):
                 args = [self.expr(a, env, B) for a in e.args]
@@ -814,6 +1062,11 @@ class FunTr:
                     raise Untranslatable('np.asarray of non-int-list')
                 return t, 'Np'
             v, vty = self.expr(fn.value, env, B)
+            if vty.startswith('Option ') and self.spec.option_unwrap and (vty, fn.attr) not in self.spec.methods \
+                    and (vty, fn.attr) not in self.spec.funs_by_attr:
+                v, vty = self.bind(B, self.spec.option_unwrap.format(v), 'Res ' + vty[7:].strip())   # None.attr raises
+            if vty.startswith('Dict ') and fn.attr == 'keys' and not e.args and not e.keywords:
+                return f'({v}.map (fun p => p.1))', f'List {dict_kv(vty)[0]}'
             if fn.attr == 'copy' and vty in self.spec.value_types and not e.args:
                 if B is None:
                     raise Untranslatable('copy inside a pure context')
@@ -826,13 +1079,18 @@ class FunTr:
                 if xty != 'Int':
                     raise Untranslatable('list.index of non-int')
                 return self.bind(B, f'Py.index {v} {x}', 'Res Int')
+            if fn.attr == 'index' and is_list(vty) and elem_ty(vty) in self.spec.eq_index and len(e.args) == 1 and not e.keywords:
+                x, xty = self.expr(e.args[0], env, B)
+                if xty != elem_ty(vty):
+                    raise Untranslatable(f'list.index of {xty} in {vty}')
+                return self.bind(B, self.spec.eq_index[elem_ty(vty)].format(v, x), 'Res Int')
             if fn.attr == 'index' and vty.startswith('List ') and vty not in LIST_TYPES and len(e.args) == 1 \
                     and not e.keywords and (vty, 'index') not in self.spec.methods:
                 x, xty = self.expr(e.args[0], env, B)
                 if lean_ty(xty) != lean_ty(elem_ty(vty)):
                     raise Untranslatable(f'{vty}.index({xty})')
                 return self.bind(B, f'PyL.indexBy {self.eq_fun(xty)} {v} {x}', 'Res Int')
-            if fn.attr == 'keys' and vty.startswith('Dict ') and not e.args and not e.keywords:
+            if fn.attr == 'keys' and vty.startswith(ASSOC) and not e.args and not e.keywords:
                 kv = split_prod(elem_ty(self.resolve(vty)))
                 if len(kv) != 2:
                     raise Untranslatable(f'keys of {vty}')
@@ -843,18 +1101,20 @@ class FunTr:
                 f = self.spec.funs[self.spec.funs_by_attr[key]]
                 pn = [p[0] for p in f['params']][1 + len(args):]
                 kw = {k.arg: k.value for k in e.keywords}
-                if set(kw) != set(pn):
-                    raise Untranslatable(f'keyword arguments of {fn.attr}')
-                args += [self.expr(kw[p], env, B) for p in pn]
+                args += self.kw_args(f, pn, kw, env, B, fn.attr)
             if e.keywords and key not in self.spec.funs_by_attr:
                 raise Untranslatable('keyword arguments')
             if key in self.spec.methods:
                 tmpl, rty = self.spec.methods[key]
-                return self.bind(B, tmpl.format(v, *[a[0] for a in args]), rty)
-            if key in self.spec.funs_by_attr:
+                r = self.bind(B, tmpl.format(v, *[a[0] for a in args]), rty)
+            elif key in self.spec.funs_by_attr:
                 self.check_owned(self.spec.funs_by_attr[key], e, [fn.value] + list(e.args), env)
-                return self.call_fun(self.spec.funs_by_attr[key], [(v, vty)] + args, B)
-            raise Untranslatable(f'method {vty}.{fn.attr} at line {e.lineno}')
+                r = self.call_fun(self.spec.funs_by_attr[key], [(v, vty)] + args, B)
+            else:
+                raise Untranslatable(f'method {vty}.{fn.attr} at line {e.lineno}')
+            if key in self.spec.fresh_methods:
+                self.fresh_terms.add(r[0])        # declared: the method returns a new object
+            return r
         raise Untranslatable('call form')
 
     def ctor(self, n, e, env, B):
@@ -953,11 +1213,29 @@ class FunTr:
         return term, f'List {paren(ety)}'
 
     def e_DictComp(self, e, env, B):
-        """`{k: f(v) for k, v in d.items()}` over an association list with unique keys (the items of a dict), the key kept:
-        an association list in the same order"""
+        """the forms that keep the keys of what they run over:
+          * `{k: v for k in keys}` over a list of strings (SrcBetween, needs `spec.dict_ops['set']`): keys are inserted one after the
+            other (a repeated key keeps its first position); a `None` value makes the entries Optional, of the type stored first;
+          * `{k: f(v) for k, v in d.items()}` on a dict type the spec declares (SrcConv, `spec.dict_types`): same keys in the same
+            order, new values, the result is of the declared type;
+          * `{k: f(v) for k, v in pairs}` over any other association list with unique keys (SrcDurOps): a list of pairs"""
         if len(e.generators) != 1:
             raise Untranslatable('dict comprehension with several generators')
         g = e.generators[0]
+        if isinstance(g.target, ast.Name):
+            if g.ifs or g.is_async or not (isinstance(e.key, ast.Name) and e.key.id == g.target.id) or 'set' not in self.spec.dict_ops:
+                raise Untranslatable('dict comprehension form')
+            it, ity = self.expr(g.iter, env, B)
+            if not is_list(ity) or elem_ty(ity) != 'Str':
+                raise Untranslatable(f'dict comprehension over {ity}')
+            x = ident(g.target.id)
+            v, vty = self.expr(e.value, {**env, g.target.id: 'Str'}, None)
+            if vty == 'None':       # filled later by `d[k] = value`: Optional of the type stored first
+                m = f'⟦T{len(self.tyvars) + 1}⟧'
+                self.tyvars[m] = None
+                vty = f'Option {m}'
+            d = self.fresh('d')
+            return f'(({it}).foldl (fun {d} ({x} : String) => {self.spec.dict_ops["set"].format(d, x, v)}) [])', f'Dict Str {paren(vty)}'
         if g.is_async or not (isinstance(g.target, ast.Tuple) and len(g.target.elts) == 2
                               and all(isinstance(x, ast.Name) for x in g.target.elts)):
             raise Untranslatable('dict comprehension target')
@@ -965,6 +1243,25 @@ class FunTr:
         if not (isinstance(e.key, ast.Name) and e.key.id == kn):
             raise Untranslatable('dict comprehension that changes the keys')
         it, ity = self.expr(g.iter, env, B)
+        dty = None
+        if isinstance(g.iter, ast.Call) and isinstance(g.iter.func, ast.Attribute) and g.iter.func.attr == 'items' and not g.iter.args:
+            dty = next((d for d, D in self.spec.dict_types.items() if D.get('items') == ity), None)
+        if dty is not None:
+            if g.ifs:
+                raise Untranslatable('dict comprehension form')
+            D = self.spec.dict_types[dty]
+            p_ = self.fresh('kv')
+            env2 = {**env, kn: D['key'], vn: D['val']}
+            Be = []
+            val, vty = self.expr(e.value, {**env2, '__subst__': {kn: f'{p_}.1', vn: f'{p_}.2'}}, Be)
+            val = self.coerce(val, vty, D['val'], 'dict comprehension value')
+            if any(isinstance(m, tuple) for _, m in Be):
+                raise Untranslatable('copy inside a comprehension')
+            pty = f'{lean_ty(D["key"])} × {lean_ty(D["val"])}'
+            if Be:
+                body = ' '.join(f'let {n} ← {m};' for n, m in Be) + f' pure ({p_}.1, {val})'
+                return self.bind(B, f'({it}).mapM (fun ({p_} : {pty}) => do {body})', f'Res {dty}')
+            return f'(({it}).map (fun ({p_} : {pty}) => ({p_}.1, {val})))', dty
         comps = split_prod(elem_ty(ity)) if is_list(ity) else []
         if len(comps) != 2:
             raise Untranslatable(f'dict comprehension over {ity}')
@@ -998,6 +1295,8 @@ class FunTr:
         ty, want = self.resolve(ty), self.resolve(want)
         if 'Float' in (ty, want) and ty != want:
             raise Untranslatable(f'{what}: a float where {want} is expected')      # floats never convert silently
+        if ty in getattr(self, 'dictvars', ()) and want in self.spec.dict_types and self.as_dict_type(ty, want=want) == want:
+            return t
         if lean_ty(ty).replace('Melody', 'List Note') == lean_ty(want).replace('Melody', 'List Note'):
             return t
         if is_list(ty) and is_list(want) and ('⟦' in ty or '⟦' in want):
@@ -1027,6 +1326,8 @@ class FunTr:
         raise Untranslatable(f'{what} of type {ty}, expected {want}')
 
     def resolve(self, ty):
+        if ty in getattr(self, 'dictvars', ()) and self.tyvars.get(ty) is not None:
+            return self.tyvars[ty]            # an empty `{}` whose dict type is known by now
         for m, v in self.tyvars.items():
             if v is not None and m in ty:
                 ty = ty.replace(m, paren(lean_ty(v)))
@@ -1073,7 +1374,10 @@ class FunTr:
         if any(p[0] == 'rec_fuel' for p in nd['params']):
             raise Untranslatable('a parameter named rec_fuel')
         sub = FunTr(self.spec, nd['lean'], nd['params'], nd['ret'])
+        if self.fuel_name not in (None, 'rec_fuel'):
+            raise Untranslatable(f'local function {s.name} inside a function whose depth bound is called {self.fuel_name}')
         sub.copy_template, sub.fold_literals, sub.has_fuel = self.copy_template, self.fold_literals, True
+        sub.fuel_name = self.fuel_name = 'rec_fuel'
         sub.typed_ops, sub.join_ifs = self.typed_ops, self.join_ifs
         self.has_fuel = True
         self.spec.funs[s.name] = dict(lean=nd['lean'], params=nd['params'], ret=nd['ret'], pure=False, fuel=True, local=True)
@@ -1120,13 +1424,13 @@ class FunTr:
                                 add(x.value.id)
                             elif isinstance(x, ast.Subscript) and isinstance(x.value, ast.Attribute) \
                                     and isinstance(x.value.value, ast.Name):
-                                add(x.value.value.id)          # `m.notes[i] = v` changes `m`
+                                add(x.value.value.id)          # `m.notes[i] = v` / `x.attr[k] = e` changes `m` / `x`
                 elif isinstance(node, ast.AugAssign):
                     x = node.target
                     if isinstance(x, ast.Name):
                         add(x.id)
-                    elif isinstance(x, ast.Attribute) and isinstance(x.value, ast.Name):
-                        add(x.value.id)
+                    elif isinstance(x, (ast.Attribute, ast.Subscript)) and isinstance(x.value, ast.Name):
+                        add(x.value.id)                        # `x.attr op= e`, `d[k] op= e`
                 elif isinstance(node, ast.Call) and isinstance(node.func, ast.Attribute) \
                         and node.func.attr in ('append', 'insert', 'pop') and isinstance(node.func.value, ast.Name):
                     add(node.func.value.id)
@@ -1212,6 +1516,26 @@ class FunTr:
         st = self.fresh('st') if len(names) != 1 else ident(names[0])
         return ('join', st, [(ident(n), types[n]) for n in names], node, self.block(rest, env2, k))
 
+    def pure_message(self, msg, env):
+        """the message of an `assert` is built only when the test fails, and an exception while building it would replace the
+        AssertionError.  When every value it formats is a pure expression of the image (constants, names, attributes bound to
+        total model functions; SrcBetween: `f"… {new_voice.duration} for {part}"`), building it cannot raise in the image and
+        nothing has to be assumed; otherwise (SrcOrn: `{new_note.duration}` can raise) the assumption is printed."""
+        pieces = [v.value for v in msg.values if isinstance(v, ast.FormattedValue)] if isinstance(msg, ast.JoinedStr) else [msg]
+        if isinstance(msg, ast.JoinedStr) and any(isinstance(v, ast.FormattedValue) and v.format_spec is not None for v in msg.values):
+            return False
+        saved = (self.n, len(self.assumed), set(self.fresh_terms), dict(self.tyvars), self.last_tuple)
+        try:
+            for p_ in pieces:
+                if not isinstance(p_, ast.Constant):
+                    self.expr(p_, env, None)
+            return True
+        except Untranslatable:
+            return False
+        finally:
+            self.n, self.fresh_terms, self.tyvars, self.last_tuple = saved[0], saved[2], saved[3], saved[4]
+            del self.assumed[saved[1]:]
+
     def block(self, body, env, k=None):
         """statement list -> tree; `k(env)` is the node for falling off the end (default: `return None`)"""
         if k is None:
@@ -1231,7 +1555,9 @@ class FunTr:
             c, cty = self.truth(*self.expr(s.test, env, B))
             if cty != 'Bool':
                 raise Untranslatable(f'assertion of type {cty} at line {s.lineno}')
-            if s.msg is not None:
+            if c == 'true':           # decided by the declared types
+                return self.wrap(B, self.block(rest, env, k))
+            if s.msg is not None and not self.pure_message(s.msg, env):
                 self.assumed.append(f'line {s.lineno}: building the message of the failing assertion does not raise')
             return self.wrap(B, ('if', c, self.block(rest, env, k), ('raise', 'assertion')))
         if isinstance(s, ast.FunctionDef) and s.name in self.nested and not self.in_loop:
@@ -1268,16 +1594,20 @@ class FunTr:
             if ty == 'None':
                 t = '()'
             fr = set(self.fresh_vars(env)) - {ident(name)}
-            if t in self.fresh_terms or self.is_fresh_value(s.value) or isinstance(s.value, (ast.List, ast.ListComp)):
+            if t in self.fresh_terms or self.is_fresh_value(s.value) or isinstance(s.value, (ast.List, ast.ListComp, ast.Dict, ast.DictComp)) \
+                    or (isinstance(s.value, ast.Call) and isinstance(s.value.func, ast.Name) and s.value.func.id == 'dict'
+                        and 'dict' in self.spec.builtins and 'dict' not in env):
                 fr.add(ident(name))
             cst = {k_: v_ for k_, v_ in env.get('__const__', {}).items() if k_ != name}
             if t in ('true', 'false') and not self.in_loop_assigned(name):
                 cst[name] = t
+            reb = {'__rebound__': tuple(env.get('__rebound__', ())) + (name,)} if name in self.consts else {}   # a fixed parameter re-assigned
             return self.wrap(B, ('let', ident(name), lean_ty(ty), t,
-                                 self.block(rest, {**env, name: ty, '__fresh__': frozenset(fr), '__const__': cst}, k)))
+                                 self.block(rest, {**env, name: ty, '__fresh__': frozenset(fr), '__const__': cst, **reb}, k)))
         if isinstance(s, ast.Assign) and len(s.targets) == 1 and isinstance(s.targets[0], ast.Tuple) \
                 and all(isinstance(x, ast.Name) for x in s.targets[0].elts):
             B = []
+            self.check_owned_call(s, rest, env)
             t, ty = self.expr(s.value, env, B)
             comps = split_prod(ty)
             names = [x.id for x in s.targets[0].elts]
@@ -1287,17 +1617,68 @@ class FunTr:
             env2 = self.drop_const(env, names)
             fr = set(self.fresh_vars(env))
             for nme, cty in zip(names, comps):
-                env2[nme] = cty
+                env2[nme] = {'String': 'Str'}.get(cty, cty) if getattr(s, '_py2lean_alias', False) else cty
+                if getattr(s, '_py2lean_alias', False):
+                    fr.discard(ident(nme))
+                    continue
                 fr.add(ident(nme))       # components of a freshly built tuple
             env2['__fresh__'] = frozenset(fr)
             node = self.block(rest, env2, k)
             for idx in reversed(range(len(names))):
                 node = ('let', ident(names[idx]), lean_ty(comps[idx]), f'{pr}{tuple_proj(len(names), idx)}', node)
             return self.wrap(B, ('let', pr, None, t, node))
+        if isinstance(s, ast.Assign) and len(s.targets) == 1 and isinstance(s.targets[0], ast.Tuple) \
+                and isinstance(s.value, ast.Tuple) and len(s.value.elts) == len(s.targets[0].elts) \
+                and all(isinstance(x, ast.Attribute) and isinstance(x.value, ast.Name) and x.value.id in env
+                        for x in s.targets[0].elts):
+            # `x.a, y.b = e1, e2`: Python evaluates e1, e2, then stores left to right; the values are named first
+            B = []
+            tmps, stores = [], []
+            for x, v in zip(s.targets[0].elts, s.value.elts):
+                t, ty = self.expr(v, env, B)
+                tmp = self.fresh('rhs') + "'"          # hidden name (not a Python identifier)
+                B.append((tmp, ('pure', t)))
+                tmps.append((tmp, ty))
+            for x, (tmp, ty) in zip(s.targets[0].elts, tmps):
+                st_ = ast.Assign(targets=[x], value=ast.Name(id=tmp, ctx=ast.Load()))
+                ast.copy_location(st_, s)
+                ast.fix_missing_locations(st_)
+                stores.append(st_)
+            env2 = dict(env)
+            for tmp, ty in tmps:
+                env2[tmp] = ty
+            return self.wrap(B, self.block(stores + rest, env2, k))
+        if isinstance(s, ast.Assign) and len(s.targets) == 1 and isinstance(s.targets[0], ast.Tuple) \
+                and not isinstance(s.value, ast.Tuple) \
+                and all(isinstance(x, (ast.Name, ast.Subscript, ast.Attribute)) for x in s.targets[0].elts) \
+                and not all(isinstance(x, ast.Name) for x in s.targets[0].elts):
+            # `a, d[k] = e`: e is evaluated once, then its components are stored from left to right
+            B = []
+            self.check_owned_call(s, rest, env)
+            t, ty = self.expr(s.value, env, B)
+            comps = split_prod(ty)
+            elts = s.targets[0].elts
+            if len(comps) != len(elts):
+                raise Untranslatable(f'unpacking {ty} into {len(elts)} targets at line {s.lineno}')
+            pr = self.fresh('pr')
+            env2 = dict(env)
+            stores = []
+            for i, (x, cty) in enumerate(zip(elts, comps)):
+                h = f"{pr}_{i}'"                      # hidden names (not Python identifiers)
+                env2[h] = cty
+                st_ = ast.Assign(targets=[x], value=ast.Name(id=h, ctx=ast.Load()))
+                ast.copy_location(st_, s)
+                ast.fix_missing_locations(st_)
+                stores.append(st_)
+            node = self.block(stores + rest, env2, k)
+            for i in reversed(range(len(elts))):
+                node = ('let', f"{pr}_{i}'", lean_ty(comps[i]), f'{pr}{tuple_proj(len(elts), i)}', node)
+            return self.wrap(B, ('let', pr, None, t, node))
         if isinstance(s, ast.Assign) and len(s.targets) == 1 and isinstance(s.targets[0], ast.Subscript) \
                 and isinstance(s.targets[0].value, ast.Name) and s.targets[0].value.id in env \
-                and not isinstance(s.targets[0].slice, ast.Slice):
+                and not isinstance(s.targets[0].slice, ast.Slice) and self.dict_reading(env[s.targets[0].value.id]) in (None, 'assoc'):
             # `x[i] = v` on a list (IndexError out of range) / `d[k] = v` on a dict; Python evaluates v, then x, then the index
+            # (SrcExt; the dicts of SrcConv / SrcBetween are stored into further down)
             x = s.targets[0].value.id
             xty = self.resolve(env[x])
             if ident(x) not in self.fresh_vars(env):
@@ -1305,8 +1686,8 @@ class FunTr:
             B = []
             t, ty = self.expr(s.value, env, B)
             i, ity = self.expr(s.targets[0].slice, env, B)
-            if xty.startswith('Dict '):
-                want = f'Dict {paren(lean_ty(ity) + " × " + lean_ty(ty))}'
+            if xty.startswith(ASSOC):
+                want = f'{ASSOC}{paren(lean_ty(ity) + " × " + lean_ty(ty))}'
                 nty, _ = self.unify_list(xty, want)
                 kv = split_prod(elem_ty(nty))
                 return self.wrap(B, ('let', ident(x), lean_ty(nty), f'(PyL.dictSet {self.eq_fun(kv[0])} {ident(x)} {i} {t})',
@@ -1367,8 +1748,103 @@ class FunTr:
                 else:
                     v = s.value
                 t, ty = self.expr(v, env, B)
+                if fty == 'Kind' and ty == 'Str':
+                    t, ty = self.bind(B, f'Py.kindOfStr {t}', 'Res Kind')      # as in constructors
                 t = self.coerce(t, ty, fty, f'store to {xty}.{tgt.attr}')
                 return self.wrap(B, ('let', ident(x), lean_ty(xty), '{ ' + ident(x) + f' with {field} := {t} }}', self.block(rest, env, k)))
+        if isinstance(s, ast.Assign) and len(s.targets) == 1 and isinstance(s.targets[0], ast.Subscript) \
+                and isinstance(s.targets[0].value, ast.Attribute) and isinstance(s.targets[0].value.value, ast.Name) \
+                and s.targets[0].value.value.id in env:
+            tgt = s.targets[0]
+            x, attr = tgt.value.value.id, tgt.value.attr
+            xty = env[x]
+            if (xty, attr) not in self.spec.fields or self.spec.fields[(xty, attr)][1] not in self.spec.dict_types:
+                raise Untranslatable(f'store to {xty}.{attr}[…] at line {s.lineno}')
+            if ident(x) not in self.fresh_vars(env):
+                raise Untranslatable(f'store through `{x}`, which may alias an operand, at line {s.lineno}')
+            field, fty = self.spec.fields[(xty, attr)]
+            D = self.spec.dict_types[fty]
+            for live in env.get('__items_loops__', ()):
+                if live[0] == (x, attr) and not (isinstance(tgt.slice, ast.Name) and tgt.slice.id == live[1]):
+                    # inside `for k, v in x.attr.items()` only the value of the key being visited may be replaced:
+                    # then the snapshot the fold runs over and Python's live view agree (and the key set does not change)
+                    raise Untranslatable(f'store to {x}.{attr}[…] under a key other than the one being visited, at line {s.lineno}')
+            B = []
+            kt, kty = self.expr(tgt.slice, env, B)
+            if lean_ty(kty) != lean_ty(D['key']):
+                raise Untranslatable(f'key of {fty}: {kty}')
+            t, ty = self.expr(s.value, env, B)
+            t = self.coerce(t, ty, D['val'], f'store to {xty}.{attr}[…]')
+            upd = D['set'].format(f'{ident(x)}.{field}', kt, t)
+            return self.wrap(B, ('let', ident(x), lean_ty(xty), '{ ' + ident(x) + f' with {field} := {upd} }}', self.block(rest, env, k)))
+        if isinstance(s, ast.Assign) and len(s.targets) == 1 and isinstance(s.targets[0], ast.Subscript) \
+                and isinstance(s.targets[0].value, ast.Name) and s.targets[0].value.id in env \
+                and self.dict_reading(env[s.targets[0].value.id]) == 'declared':
+            # `d[k] = v` on a dict type the spec declares (SrcConv)
+            tgt = s.targets[0]
+            x = tgt.value.id
+            B = []
+            kt, kty = self.expr(tgt.slice, env, B)
+            t, ty = self.expr(s.value, env, B)
+            dty = self.as_dict_type(env[x], key=kty, val=ty)
+            if dty is None:
+                raise Untranslatable(f'store to {env[x]}[…] at line {s.lineno}')
+            if ident(x) not in self.fresh_vars(env) and x not in getattr(self, 'owned', ()):
+                raise Untranslatable(f'store through `{x}`, which may alias an operand, at line {s.lineno}')
+            D = self.spec.dict_types[dty]
+            if lean_ty(kty) != lean_ty(D['key']):
+                raise Untranslatable(f'key of {dty}: {kty}')
+            t = self.coerce(t, ty, D['val'], f'store to {dty}[…]')
+            return self.wrap(B, ('let', ident(x), lean_ty(dty), D['set'].format(ident(x), kt, t), self.block(rest, {**env, x: dty}, k)))
+        if isinstance(s, (ast.Assign, ast.AugAssign)):
+            tgt = s.targets[0] if isinstance(s, ast.Assign) and len(s.targets) == 1 else getattr(s, 'target', None)
+            if isinstance(tgt, ast.Subscript) and isinstance(tgt.value, ast.Name) and env.get(tgt.value.id, '').startswith('Dict ') \
+                    and 'set' in self.spec.dict_ops:
+                x = tgt.value.id
+                if ident(x) not in self.fresh_vars(env):
+                    raise Untranslatable(f'store into `{x}`, which may alias an operand, at line {s.lineno}')
+                kty, vty = dict_kv(self.resolve(env[x]))
+                B = []
+                key, keyty = self.expr(tgt.slice, env, B)       # Python: value first for `=`, but both are pure names here
+                if keyty != kty or not isinstance(tgt.slice, (ast.Name, ast.Constant)):
+                    raise Untranslatable(f'key of {env[x]} at line {s.lineno}')
+                if isinstance(s, ast.AugAssign):
+                    inner0 = vty[7:].strip() if vty.startswith('Option ') else vty
+                    if inner0 in self.tyvars and self.tyvars[inner0] is None:
+                        saved_n = self.n
+                        _, rty0 = self.expr(s.value, env, [])            # typed only; translated again below
+                        self.n = saved_n
+                        if (f'Option {paren(rty0)}', type(s.op).__name__, rty0) not in self.spec.binops:
+                            raise Untranslatable(f'`None {type(s.op).__name__} {rty0}` at line {s.lineno}')
+                        self.tyvars[inner0] = self.spec.binops[(f'Option {paren(rty0)}', type(s.op).__name__, rty0)][1]
+                        kty, vty = dict_kv(self.resolve(env[x]))
+                    v = ast.BinOp(left=ast.Subscript(value=ast.Name(id=x, ctx=ast.Load()), slice=tgt.slice, ctx=ast.Load()),
+                                  op=s.op, right=s.value)
+                    ast.copy_location(v, s)
+                    ast.fix_missing_locations(v)
+                else:
+                    v = s.value
+                t, ty = self.expr(v, env, B)
+                inner = vty[7:].strip() if vty.startswith('Option ') else vty
+                if inner in self.tyvars and self.tyvars[inner] is None and ty != 'None':
+                    self.tyvars[inner] = ty                      # the dict was built with `None` values
+                    kty, vty = dict_kv(self.resolve(env[x]))
+                t = self.coerce(t, ty, vty, f'store into {env[x]}')
+                xty = f'Dict {kty} {paren(vty)}'
+                return self.wrap(B, ('let', ident(x), lean_ty(xty), self.spec.dict_ops['set'].format(ident(x), key, t),
+                                     self.block(rest, {**env, x: xty}, k)))
+        if isinstance(s, ast.Expr) and isinstance(s.value, ast.Call) and isinstance(s.value.func, ast.Attribute) \
+                and s.value.func.attr == 'update' and isinstance(s.value.func.value, ast.Name) and len(s.value.args) == 1 \
+                and not s.value.keywords and env.get(s.value.func.value.id, '').startswith('Dict ') and 'update' in self.spec.dict_ops:
+            x = s.value.func.value.id
+            if ident(x) not in self.fresh_vars(env):
+                raise Untranslatable(f'update of `{x}`, which may alias an operand, at line {s.lineno}')
+            B = []
+            t, ty = self.expr(s.value.args[0], env, B)
+            if lean_ty(self.resolve(ty)) != lean_ty(self.resolve(env[x])):
+                raise Untranslatable(f'{env[x]}.update({ty}) at line {s.lineno}')
+            return self.wrap(B, ('let', ident(x), lean_ty(self.resolve(env[x])), self.spec.dict_ops['update'].format(ident(x), t),
+                                 self.block(rest, env, k)))
         if isinstance(s, ast.AugAssign) and isinstance(s.target, ast.Name):
             B = []
             e = ast.BinOp(left=ast.Name(id=s.target.id, ctx=ast.Load()), op=s.op, right=s.value)
@@ -1431,13 +1907,50 @@ class FunTr:
             if c == 'false':
                 return self.wrap(B, self.block(list(s.orelse) + rest, env, k))
             return self.wrap(B, ('if', c, self.block(list(s.body) + rest, env, k), self.block(list(s.orelse) + rest, env, k)))
+        if isinstance(s, ast.For) and not s.orelse and isinstance(s.target, ast.Tuple) and len(s.target.elts) == 2 \
+                and all(isinstance(x_, ast.Name) for x_ in s.target.elts) and isinstance(s.iter, ast.Call) \
+                and isinstance(s.iter.func, ast.Name) and s.iter.func.id == 'enumerate' and 'enumerate' not in env \
+                and len(s.iter.args) == 1 and not s.iter.keywords:
+            idx = s.target.elts[0].id
+            if any(isinstance(x_, ast.Name) and x_.id == idx for st_ in list(s.body) + rest for x_ in ast.walk(st_)):
+                raise Untranslatable(f'enumerate index `{idx}` is used, at line {s.lineno}')
+            s2 = ast.For(target=s.target.elts[1], iter=s.iter.args[0], body=s.body, orelse=[])     # the index is never read
+            ast.copy_location(s2, s)
+            return self.block([s2] + rest, env, k)
+        if isinstance(s, ast.For) and not s.orelse and isinstance(s.target, ast.Tuple) \
+                and all(isinstance(x, ast.Name) for x in s.target.elts):
+            # `for a, b in pairs:` = `for it' in pairs: a, b = it'` (the hidden name cannot clash: `'` is not allowed in a Python identifier)
+            it_name = self.fresh('it') + "'"
+            unpack = ast.Assign(targets=[s.target], value=ast.Name(id=it_name, ctx=ast.Load()))
+            unpack._py2lean_alias = True        # the components are the container's own elements, not new objects
+            loop = ast.For(target=ast.Name(id=it_name, ctx=ast.Store()), iter=s.iter, body=[unpack] + list(s.body), orelse=[])
+            for n_ in (unpack, loop):
+                ast.copy_location(n_, s)
+                ast.fix_missing_locations(n_)
+            items = None
+            if isinstance(s.iter, ast.Call) and isinstance(s.iter.func, ast.Attribute) and s.iter.func.attr == 'items' \
+                    and not s.iter.args and isinstance(s.iter.func.value, ast.Attribute) \
+                    and isinstance(s.iter.func.value.value, ast.Name):
+                items = ((s.iter.func.value.value.id, s.iter.func.value.attr), s.target.elts[0].id)
+            if any(x.id in self.assigned_names(s.body) for x in s.target.elts):
+                raise Untranslatable(f'loop target re-assigned in the body at line {s.lineno}')
+            loop._py2lean_items = items
+            return self.block([loop] + rest, env, k)
         if isinstance(s, ast.For) and not s.orelse and isinstance(s.target, ast.Name):
             B = []
             it, ity = self.expr(s.iter, env, B)
+            if ity in self.spec.iters:
+                it, ity = self.spec.iters[ity][0].format(it), self.spec.iters[ity][1]
             if not is_list(ity):
                 raise Untranslatable(f'loop over {ity} at line {s.lineno}')
             svars = [n for n in self.assigned_names(s.body) if n in env and n != s.target.id]
+            items_of = getattr(s, '_py2lean_items', None)
             for nd in ast.walk(s.iter):
+                if isinstance(nd, ast.Name) and items_of and nd.id == items_of[0][0]:
+                    # `for k, v in x.attr.items()` (SrcConv): the body may replace the value under the key being visited and nothing
+                    # else in that dict (checked at the store, `__items_loops__`), so the snapshot the fold runs over and Python's
+                    # live view agree
+                    continue
                 if isinstance(nd, ast.Name) and nd.id in svars and not env[nd.id] in ('Int', 'Rat', 'Bool'):
                     raise Untranslatable(f'the loop at line {s.lineno} changes `{nd.id}`, which it iterates over')
             has_break = any(isinstance(x, ast.Break) for st_ in s.body for x in ast.walk(st_))
@@ -1469,8 +1982,10 @@ class FunTr:
                 self.in_loop += 1
                 fr = frozenset(set(self.fresh_vars(env0)) - {ident(s.target.id)})
                 saved_n = self.n
+                loops = tuple(env0.get('__items_loops__', ())) + ((s._py2lean_items,) if getattr(s, '_py2lean_items', None) else ())
                 try:
-                    body = self.block(list(s.body), {**env0, s.target.id: elem_ty(ity), '__fresh__': fr}, k_state)
+                    body = self.block(list(s.body), {**env0, s.target.id: elem_ty(ity), '__fresh__': fr,
+                                                     **({'__items_loops__': loops} if loops else {})}, k_state)
                 finally:
                     self.in_loop -= 1
                 if not promote and not promote_opt:
@@ -1487,12 +2002,26 @@ class FunTr:
             st = self.fresh('st')
             sv = [(ident(n), t_) for n, t_ in zip(svars, stys)]
             node = ('for', st, it, lean_ty(elem_ty(ity)), ident(s.target.id), sv, body, self.block(rest, env0, k), has_break)
-            for n in reversed(pre):
-                if isinstance(n, tuple):
-                    node = ('let', ident(n[0]), lean_ty(n[1]), 'none', node)
-                else:
-                    node = ('let', ident(n), 'Rat', f'(({ident(n)} : Int) : Rat)', node)
+            for n in reversed([n for n in pre if not isinstance(n, tuple)]):
+                node = ('let', ident(n), 'Rat', f'(({ident(n)} : Int) : Rat)', node)
+            for n in reversed([n for n in pre if isinstance(n, tuple)]):      # the `none`s first, then the promotions (as SrcBetween wrote them)
+                node = ('let', ident(n[0]), lean_ty(n[1]), 'none', node)
             return self.wrap(B, node)
+        if isinstance(s, ast.Try) and len(s.handlers) == 1 and not s.orelse and not s.finalbody and not self.in_loop \
+                and (s.handlers[0].type is None or (isinstance(s.handlers[0].type, ast.Name) and s.handlers[0].type.id == 'Exception')) \
+                and s.handlers[0].name is None:
+            # `try: BODY except: HANDLER` where every path of BODY returns: an exception raised anywhere in BODY (the model's
+            # `Err` values are all `Exception`s) runs HANDLER, then the rest of the block.  HANDLER must not read a name
+            # that BODY (re)binds: its value at the point of the exception is not tracked.
+            def no_fall(env_):
+                raise Untranslatable(f'try body that can fall through at line {s.lineno}')
+            body = self.block(list(s.body), env, no_fall)
+            bound = set(self.assigned_names(list(s.body)))
+            after = list(s.handlers[0].body) + rest
+            used = {x.id for st_ in after for x in ast.walk(st_) if isinstance(x, ast.Name) and isinstance(x.ctx, ast.Load)}
+            if bound & used:
+                raise Untranslatable(f'except handler reads {sorted(bound & used)}, bound in the try body, at line {s.lineno}')
+            return ('try', body, self.block(after, env, k))
         if isinstance(s, ast.Return):
             if self.in_loop:
                 raise Untranslatable(f'return inside a loop at line {s.lineno}')
@@ -1526,6 +2055,8 @@ def is_pure(node):
         return is_pure(node[3]) and is_pure(node[4])
     if k == 'matchunion':
         return all(is_pure(sub) for _, sub in node[4])
+    if k == 'try':
+        return False
     if k == 'for':
         return is_pure(node[6]) and is_pure(node[7])
     return True
@@ -1590,6 +2121,8 @@ def render(node, ind, monadic):
         out.append(f'{sp}  ) {init}')
         out += [f'{sp}let {v} : {lean_ty(t)} := {st}{tuple_proj(n, i)}' for i, (v, t) in enumerate(allv) if v != '«brk»']
         return out + render(rest, ind, monadic)
+    if k == 'try':
+        return [f'{sp}tryCatch (do'] + render(node[1], ind + 4, True) + [f'{sp}  ) (fun _ => do'] + render(node[2], ind + 4, True) + [f'{sp}  )']
     if k == 'ret':
         return [f'{sp}pure {node[1]}' if monadic else f'{sp}{node[1]}']
     if k == 'raise':
@@ -1618,7 +2151,19 @@ def get_source_ast(qual):
 
 def translate_function(spec, entry):
     """entry: dict(py=qualified name, name=python-level name used by callers, lean=Lean name,
-    params=[(name, type)], ret=type, attr=(type, attr) optional, operator=(type, op) optional)"""
+    params=[(name, type)], ret=type, attr=(type, attr) optional, operator=(type, op) optional).
+    Entry options (all optional; where two forks used one key for different things the reading is chosen as described):
+      fixed={param: (term, type)}       parameters with a default that the tie does not vary (callers may only pass that value)
+      defaults={param: (term, type)}    SrcConv: defaults of the `def` callers may leave out, checked against the source; constant
+                                        defaults (None / bool / int) are read from the `def` itself (SrcBetween)
+      copy={type: template}             `x.copy()` on the model's values, for this function only
+      owned=[param]                     parameters the function stores into / mutates (see `_translate_function`, `FunTr.check_owned`)
+      local_spec={Spec field: update}   SrcConv: bindings merged into the spec while this function is translated, then removed
+      nested={name: dict(lean, params, ret)}   SrcDurOps: local (recursive) functions, emitted with a depth bound `rec_fuel`
+      recursive=True                    SrcConv: the function calls itself; the definition recurses on a depth bound `fuel`
+      fuel=True                         the function reaches one of the two kinds of recursion: it takes the bound as first argument and
+                                        passes it on (named as the first such callee names it: `rec_fuel` or `fuel`)
+      join_ifs, fold, typed_ops, binop, rbinop    see `FunTr`"""
     fd, src = get_source_ast(entry['py'])
     argnames = [a.arg for a in fd.args.args]
     params = entry['params']
@@ -1633,10 +2178,11 @@ def translate_function(spec, entry):
     tr.fold_literals = bool(entry.get('fold'))
     tr.typed_ops = bool(entry.get('typed_ops'))
     tr.nested = dict(entry.get('nested', {}))
-    tr.has_fuel = bool(entry.get('fuel'))
+    tr.has_fuel = bool(entry.get('fuel') or entry.get('recursive'))
+    tr.fuel_name = 'fuel' if entry.get('recursive') else None
     if tr.has_fuel or tr.nested:
-        if any(p[0] == 'rec_fuel' for p in params):
-            raise Untranslatable('a parameter named rec_fuel')
+        if any(p in ('rec_fuel', 'fuel') for p in argnames):
+            raise Untranslatable('a parameter named rec_fuel / fuel')
     try:
         return _translate_function(spec, entry, tr, fd, params)
     finally:
@@ -1646,9 +2192,11 @@ def translate_function(spec, entry):
 
 def _translate_function(spec, entry, tr, fd, params):
     env = {p: t for p, t in params}
+    argnames = [a.arg for a in fd.args.args]
     # entry key `owned`: parameters the function stores into (SrcOrn: `new_note.amp = …`) or mutates in place (SrcExt: a list it
-    # appends to).  Inside, they count as fresh; translated call sites are checked (FunTr.check_owned).  For list parameters the
-    # assumption about the other callers is printed in the generated file (SrcExt); SrcOrn's `accent` states it in its group file.
+    # appends to; SrcConv: a dict it stores into and returns).  Inside, they count as fresh; translated call sites are checked
+    # (FunTr.check_owned).  For list parameters the assumption about the other callers is printed in the generated file (SrcExt);
+    # SrcOrn's `accent` and SrcConv's `Chord.to_absolute_note` state it in their group files.
     owned = list(entry.get('owned', []))
     if owned:
         if any(p not in env for p in owned):
@@ -1658,16 +2206,58 @@ def _translate_function(spec, entry, tr, fd, params):
         if lists:
             tr.assumed.append(f'the caller does not use the list `{", ".join(lists)}` after the call (the function mutates it in '
                               f'place): translated call sites are checked, other callers are assumed to pass a list of their own')
+    tr.owned = set(owned)
+    tr.fun_body = list(fd.body)
     for k, (term, ty) in entry.get('fixed', {}).items():
         env[k] = ty
         tr.consts[k] = term
-    tree = tr.block(list(fd.body), env)
+    # defaults of the `def` that callers may leave out: constants are read from the source (SrcBetween), other defaults must be
+    # declared in the entry and are checked against the source (SrcConv: `last_pitch=None` as an `Option Int`)
+    defaults = {}
+    src_defaults = dict(zip(argnames[len(argnames) - len(fd.args.defaults):], fd.args.defaults))
+    for k, d in src_defaults.items():
+        if isinstance(d, ast.Constant) and (d.value is None or isinstance(d.value, (bool, int))):
+            defaults[k] = tr.e_Constant(d, {}, None)
+    for k, (term, ty) in entry.get('defaults', {}).items():
+        if k not in src_defaults:
+            raise Untranslatable(f'{entry["py"]}: no default for {k} in the source')
+        t_, ty_ = tr.expr(src_defaults[k], {}, None)
+        pty = dict(params)[k]
+        if tr.coerce(t_, ty_, pty, f'default of {k}') != term:
+            raise Untranslatable(f'{entry["py"]}: default of {k} is {ast.unparse(src_defaults[k])}, spec {term}')
+        defaults[k] = (term, pty)
+    if entry.get('recursive'):
+        # the function calls itself: the Lean definition recurses on a fuel argument (Python: the recursion limit)
+        spec.funs[entry['name']] = {'lean': entry['lean'], 'params': params, 'ret': entry['ret'], 'pure': False,
+                                    'defaults': defaults, 'fuel': 'fuel'}
+    # bindings that hold for this function only (merged into the spec while its body is translated, then removed)
+    saved = {}
+    for attr_, upd in entry.get('local_spec', {}).items():
+        cur = getattr(spec, attr_)
+        saved[attr_] = cur.copy() if hasattr(cur, 'copy') else cur
+        if isinstance(cur, (dict, set)):
+            cur.update(upd)
+        else:
+            setattr(spec, attr_, upd)
+    try:
+        tree = tr.block(list(fd.body), env)
+    finally:
+        for attr_, old in saved.items():
+            cur = getattr(spec, attr_)
+            if isinstance(cur, (dict, set)):
+                cur.clear()
+                cur.update(old)
+            else:
+                setattr(spec, attr_, old)
+        if entry.get('recursive'):
+            spec.funs.pop(entry['name'], None)
     for k, (term, ty) in reversed(list(entry.get('fixed', {}).items())):
         tree = ('let', ident(k), lean_ty(ty), term, tree)
     pure = is_pure(tree)
     sig = ' '.join(f'({ident(p)} : {lean_ty(t)})' for p, t in params)
+    fuel_name = tr.fuel_name or 'rec_fuel'
     if tr.has_fuel:
-        sig = '(rec_fuel : Nat) ' + sig
+        sig = f'({fuel_name} : Nat) ' + sig
     rt = lean_ty(entry['ret'])
     if ' ' in rt:
         rt_m = f'({rt})'
@@ -1675,6 +2265,14 @@ def _translate_function(spec, entry, tr, fd, params):
         rt_m = rt
     head = f'def {entry["lean"]} {sig} : ' + (rt if pure else f'Res {rt_m}') + ' :=' + ('' if pure else ' do')
     lines = [f'/-- `{entry["py"]}` -/', head] + render(tree, 2, not pure)
+    if entry.get('recursive'):
+        # structural recursion on the fuel; running out of fuel is Python's RecursionError
+        pure = False
+        lines = [f'/-- `{entry["py"]}` (recursive: `fuel` bounds the depth of the recursion) -/',
+                 f'def {entry["lean"]} {sig} : Res {rt_m} :=', '  match fuel with',
+                 '  | 0 => throw Err.other', '  | fuel + 1 => do'] + render(tree, 6, True)
+    elif tr.has_fuel and fuel_name == 'fuel' and pure:
+        raise Untranslatable(f'{entry["py"]}: fuel declared but nothing recursive is called')
     for ntext, sub in tr.nested_defs:
         tr.tyvars.update(sub.tyvars)
         lines = ntext.split('\n') + [''] + lines
@@ -1685,11 +2283,13 @@ def _translate_function(spec, entry, tr, fd, params):
                 raise Untranslatable('an empty list whose element type is never determined')
             text = text.replace(m, paren(lean_ty(v)))
     lines = text.split('\n')
-    info = {'lean': entry['lean'], 'params': params, 'ret': entry['ret'], 'pure': pure}
+    info = {'lean': entry['lean'], 'params': params, 'ret': entry['ret'], 'pure': pure, 'defaults': defaults}
     if owned:
         info['owned'] = tuple(owned)
+    if entry.get('fixed'):
+        info['fixed'] = {k_: v_[0] for k_, v_ in entry['fixed'].items()}
     if tr.has_fuel:
-        info['fuel'] = True
+        info['fuel'] = fuel_name      # callers pass their own bound on (`call_fun`)
     if 'rbinop' in entry:     # a reflected operator method (`__radd__`): self is the right operand
         spec.binops[tuple(entry['rbinop'])] = ('(' + entry['lean'] + ' {1} {0})', entry['ret'] if pure else 'Res ' + entry['ret'])
     if 'binop' in entry:      # a typed instance of an operator method: (left type, ast operator, right type)
